@@ -97,6 +97,15 @@ pub fn gen(r: &mut Rng) -> String {
     let mut ops: Vec<String> = vec![];
     let mut next_token = 0u32;
     let mut live: Vec<u32> = vec![];
+    // once in a while a large handler table: 60..90 registrations first (ids beyond 64), then the usual mix
+    if r.below(150) == 0 {
+        for _ in 0..60 + r.below(31) {
+            let id = (0u32..).find(|i| !live.contains(i)).unwrap();
+            live.push(id);
+            ops.push(format!("add/{}/{}/-", if r.below(4) == 0 { 'c' } else { 'o' }, next_token));
+            next_token += 1;
+        }
+    }
     for _ in 0..r.below(14) {
         match r.below(10) {
             0 | 1 | 2 => {
